@@ -91,7 +91,7 @@ func cmdShut(args []string) error {
 	}
 	ctl := NewController()
 	ctl.enabled = map[string]bool{"op.start": true, "post.before": true, "exp.fire": true, "exp.locked": true,
-		"closedelete.enter": true, "closedelete.locked": true, "close.unregistered": true, "open.cachemiss": true, "open.beforeregister": true}
+		"closedelete.enter": true, "closedelete.locked": true, "close.unregistered": true, "open.cachemiss": true, "open.beforeregister": true, "view.updateafter": true}
 	ctl.BlockTimeout = 40 * time.Millisecond
 	opening := has("open1") || has("open2")
 	if opening && !has("closelast") {
@@ -108,11 +108,24 @@ func cmdShut(args []string) error {
 			return fmt.Errorf("expiry timer did not fire")
 		}
 	}
+	if has("viewbg") {
+		// a view query with stale=updateAfter on a stale index starts a background update; it parks at its gate
+		coll := c.(*rosmar.Collection)
+		if err := coll.PutDDoc(ctx, "vd", viewDDoc()); err != nil {
+			return err
+		}
+		if _, err := coll.View(ctx, "vd", "v", map[string]any{"stale": "updateAfter"}); err != nil {
+			return err
+		}
+		if _, _, ok := ctl.WaitParked("viewbg", 3*time.Second); !ok {
+			return fmt.Errorf("background view update did not start")
+		}
+	}
 	var h1, h2 *rosmar.Bucket
 	setRes := func(p, r string) { ctl.mu.Lock(); line.Res[p] = r; ctl.mu.Unlock() }
 	for _, p := range sc.Procs {
 		p := p
-		if p == "timer" {
+		if p == "timer" || p == "viewbg" {
 			continue
 		}
 		ctl.Spawn(p, func() {
@@ -166,7 +179,7 @@ func cmdShut(args []string) error {
 		}
 		all := true
 		for _, p := range sc.Procs {
-			if p == "timer" {
+			if p == "timer" || p == "viewbg" {
 				continue
 			}
 			if _, done, _ := ctl.State(p); !done {
@@ -179,7 +192,7 @@ func cmdShut(args []string) error {
 		if time.Now().After(deadline) {
 			line.Outcome = "deadlock"
 			for _, p := range sc.Procs {
-				if _, done, _ := ctl.State(p); !done && p != "timer" {
+				if _, done, _ := ctl.State(p); !done && p != "timer" && p != "viewbg" {
 					line.Stuck = append(line.Stuck, p)
 				}
 			}
